@@ -109,6 +109,93 @@ fn rec(
     }
 }
 
+/// Number of legal deals, counted position by position in order, stopping as soon as `cap` is reached.
+pub fn count_capped(cfg: &Config, cap: u64) -> u64 {
+    fn rec(cfg: &Config, player: usize, mask: u64, count: &mut u64, cap: u64) {
+        if *count >= cap {
+            return;
+        }
+        if player == cfg.ranges.len() {
+            *count += 1;
+            return;
+        }
+        for (p, _) in cfg.ranges[player].iter() {
+            if p.0 == p.1 {
+                continue;
+            }
+            let bits = (1u64 << p.0) | (1u64 << p.1);
+            if mask & bits != 0 {
+                continue;
+            }
+            rec(cfg, player + 1, mask | bits, count, cap);
+            if *count >= cap {
+                return;
+            }
+        }
+    }
+    let deck = deck49(&cfg.flop);
+    let mut flop_mask = 0u64;
+    for c in cfg.flop {
+        flop_mask |= 1 << c;
+    }
+    let mut count = 0u64;
+    for t in 0..48usize {
+        for r in t + 1..49usize {
+            rec(cfg, 0, flop_mask | (1 << deck[t]) | (1 << deck[r]), &mut count, cap);
+            if count >= cap {
+                return count;
+            }
+        }
+    }
+    count
+}
+
+/// Every f32 a correct product of the weights can be: any grouping and order of the
+/// multiplications, each rounded to f32 (for up to four factors; None beyond).
+pub fn possible_products(ws: &[f32]) -> Option<Vec<u32>> {
+    if ws.is_empty() {
+        return Some(vec![1.0f32.to_bits()]);
+    }
+    if ws.len() > 4 {
+        return None;
+    }
+    fn rec(ws: &[f32], mask: u32, memo: &mut Vec<Option<Vec<u32>>>) -> Vec<u32> {
+        if let Some(v) = &memo[mask as usize] {
+            return v.clone();
+        }
+        let idx: Vec<usize> = (0..ws.len()).filter(|i| mask & (1 << i) != 0).collect();
+        let out: Vec<u32> = if idx.len() == 1 {
+            vec![ws[idx[0]].to_bits()]
+        } else {
+            let mut set: Vec<u32> = Vec::new();
+            // proper non-empty sub-masks
+            let mut sub = (mask - 1) & mask;
+            while sub > 0 {
+                let other = mask & !sub;
+                if sub < other {
+                    let a = rec(ws, sub, memo);
+                    let b = rec(ws, other, memo);
+                    for x in &a {
+                        for y in &b {
+                            let p = (f32::from_bits(*x) * f32::from_bits(*y)).to_bits();
+                            if !set.contains(&p) {
+                                set.push(p);
+                            }
+                        }
+                    }
+                }
+                sub = (sub - 1) & mask;
+            }
+            set
+        };
+        memo[mask as usize] = Some(out.clone());
+        out
+    }
+    let full = (1u32 << ws.len()) - 1;
+    let mut memo = vec![None; 1 << ws.len()];
+    Some(rec(ws, full, &mut memo))
+}
+
 /// Per-position fingerprints of the whole enumeration, index = linear position.
 pub fn expected_buckets(cfg: &Config) -> Vec<Bucket> {
     let deck = deck49(&cfg.flop);
